@@ -444,7 +444,7 @@ def run(ctx: Any) -> None:
                 "distinct by (calls); non-trivial = contains a failure call followed by at least one more call")
 
     # ---------------------------------------------------------------- histories
-    n_hist = 400 if thorough else 80
+    n_hist = 300 if thorough else 80
     hists: list[list[dict[str, Any]]] = []
     for label in FAULTS:                      # every failure kind at every position of a short history
         for pos in range(3):
